@@ -32,9 +32,15 @@ func failureGetter(g *ssa.Function, ff *types.Var) bool {
 		return false
 	}
 	for _, r := range rets {
-		if !isLoadOfField(retVals(r)[0], ff) {
-			return false
+		v := retVals(r)[0]
+		if isLoadOfField(v, ff) {
+			continue
 		}
+		// a getter built on another getter (the locked one returning fd.failure())
+		if c, ok := strip(v).(*ssa.Call); ok && c.Call.StaticCallee() != g && failureGetter(c.Call.StaticCallee(), ff) {
+			continue
+		}
+		return false
 	}
 	return true
 }
@@ -646,17 +652,32 @@ func c15R4(e *Engine) {
 			e.fail("R4", role+".forceFailureErr:single-writer", "-", "no function writes Client.forceFailureErr: failure emulation cannot be toggled")
 			continue
 		}
+		// the write may sit in a closure handed to a run-with-the-lock helper: the named function around it is the setter
+		writerBody := setter
+		for setter.Parent() != nil {
+			setter = setter.Parent()
+		}
 		// the setter stores emulatingErrors[param]
 		g := e.global(role, "emulatingErrors")
 		okStore := false
-		instrs(setter, func(in ssa.Instruction) {
+		instrs(writerBody, func(in ssa.Instruction) {
 			st, ok := in.(*ssa.Store)
 			if !ok || fieldOf(st.Addr) != ff {
 				return
 			}
 			if lk, ok := strip(st.Val).(*ssa.Lookup); ok {
 				if u, ok := lk.X.(*ssa.UnOp); ok && u.X == g {
-					if _, isParam := lk.Index.(*ssa.Parameter); isParam {
+					idx := strip(lk.Index)
+					if fv, isFV := idx.(*ssa.FreeVar); isFV {
+						// captured parameter of the enclosing function
+						idx = capturedValue(writerBody, fv)
+					}
+					if u2, isLoad := idx.(*ssa.UnOp); isLoad {
+						if fv, isFV := u2.X.(*ssa.FreeVar); isFV {
+							idx = capturedValue(writerBody, fv)
+						}
+					}
+					if _, isParam := idx.(*ssa.Parameter); isParam {
 						okStore = true
 					}
 				}
@@ -664,16 +685,35 @@ func c15R4(e *Engine) {
 		})
 		// the store happens on every path through the setter (a conditional early return would make some switches no-ops)
 		uncond := false
-		instrs(setter, func(in ssa.Instruction) {
+		instrs(writerBody, func(in ssa.Instruction) {
 			st, ok := in.(*ssa.Store)
 			if !ok || fieldOf(st.Addr) != ff {
 				return
 			}
-			entry := setter.Blocks[0].Instrs[0]
+			entry := writerBody.Blocks[0].Instrs[0]
 			if e.ipostdominates(st, entry) {
 				uncond = true
 			}
 		})
+		if writerBody != setter && uncond {
+			// … and the closure is handed, on every path, to a helper that runs it on every path
+			uncond = false
+			instrs(setter, func(in ssa.Instruction) {
+				c, ok := in.(*ssa.Call)
+				if !ok || c.Call.StaticCallee() == nil || e.fnRole(c.Call.StaticCallee()) != role {
+					return
+				}
+				for i, a := range c.Call.Args {
+					mc, isMC := strip(a).(*ssa.MakeClosure)
+					if !isMC || mc.Fn != ssa.Value(writerBody) || !e.ipostdominates(in, setter.Blocks[0].Instrs[0]) {
+						continue
+					}
+					if runsParamAlways(e, c.Call.StaticCallee(), i) {
+						uncond = true
+					}
+				}
+			})
+		}
 		e.check(okStore && uncond, "R4", role+".forceFailureErr:single-writer", e.pos(setter.Pos()), "%s is the only writer, stores emulatingErrors[condition] (%v) on every path (%v): every activation, switch and deactivation takes effect", e.fname(setter), okStore, uncond)
 		// the switches
 		want := map[string]string{"ActiveForceFailure": "Deprecated", "DeactiveForceFailure": "None", "EmulateFailure": "<param>"}
@@ -764,4 +804,49 @@ func isIndexLoopCond(v ssa.Value) bool {
 	}
 	c, ok := y.(*ssa.Call)
 	return ok && staticCalleeName(c) == "builtin.len"
+}
+
+// capturedValue: the value bound to free variable fv of closure fn where the closure is made (through the cell if the
+// variable is captured by reference and assigned once from a parameter).
+func capturedValue(fn *ssa.Function, fv *ssa.FreeVar) ssa.Value {
+	parent := fn.Parent()
+	if parent == nil {
+		return fv
+	}
+	idx := -1
+	for i, f := range fn.FreeVars {
+		if f == fv {
+			idx = i
+		}
+	}
+	var out ssa.Value = fv
+	instrs(parent, func(in ssa.Instruction) {
+		mc, ok := in.(*ssa.MakeClosure)
+		if !ok || mc.Fn != ssa.Value(fn) || idx < 0 || idx >= len(mc.Bindings) {
+			return
+		}
+		b := mc.Bindings[idx]
+		if al, isAl := b.(*ssa.Alloc); isAl {
+			if sts := storesTo(al); len(sts) == 1 {
+				b = sts[0].Val
+			}
+		}
+		out = strip(b)
+	})
+	return out
+}
+
+// runsParamAlways: g calls its function-typed parameter number i on every path from entry to return.
+func runsParamAlways(e *Engine, g *ssa.Function, i int) bool {
+	if g == nil || g.Blocks == nil || i >= len(g.Params) {
+		return false
+	}
+	ok := false
+	instrs(g, func(in ssa.Instruction) {
+		c, isC := in.(*ssa.Call)
+		if isC && c.Call.StaticCallee() == nil && !c.Call.IsInvoke() && strip(c.Call.Value) == ssa.Value(g.Params[i]) && e.ipostdominates(in, g.Blocks[0].Instrs[0]) {
+			ok = true
+		}
+	})
+	return ok
 }
